@@ -199,7 +199,9 @@ def build_driver(src, flavour="ndebug", extra_flags=(), extra_deps=(), cxx=None)
     deps = [srcp, os.path.join(VERIF, "drivers", "common.hpp")] + [os.path.join(VERIF, "drivers", d) if not os.path.isabs(d) else d for d in extra_deps]
     key = hashlib.sha256((sha_files(deps) + " ".join(flags) + cxx + repo_tree_hash()).encode()).hexdigest()[:20]
     bindir = os.path.join(BUILD, "bin"); os.makedirs(bindir, exist_ok=True)
-    out = os.path.join(bindir, "%s.%s.%s" % (os.path.basename(src).replace(".cpp", ""), flavour, key))
+    ftag = hashlib.sha256(" ".join(extra_flags).encode()).hexdigest()[:6] if extra_flags else "0"
+    stem = "%s.%s.%s." % (os.path.basename(src).replace(".cpp", ""), flavour + ("-" + os.path.basename(cxx) if cxx != "g++" else ""), ftag)
+    out = os.path.join(bindir, stem + key)
     if os.path.exists(out):
         return out, "cached"
     with Lock("cxx-" + os.path.basename(out)):
@@ -211,7 +213,7 @@ def build_driver(src, flavour="ndebug", extra_flags=(), extra_deps=(), cxx=None)
             return None, " ".join(cmd) + "\n" + r.stdout[-6000:]
         os.replace(out + ".tmp", out)
     # keep the cache small: drop older binaries of the same driver/flavour
-    prefix = "%s.%s." % (os.path.basename(src).replace(".cpp", ""), flavour)
+    prefix = stem
     for f in os.listdir(bindir):
         if f.startswith(prefix) and os.path.join(bindir, f) != out and not f.endswith(".tmp"):
             try: os.remove(os.path.join(bindir, f))
@@ -388,7 +390,7 @@ def run_check(prop, tier, seed):
         dcases = [(s, l) for (s, l, k) in streams if k == dkey]
         if not dcases: continue
         lines = [l for _, l in dcases]
-        mo = run_lines(model_bin, lines)
+        mo = None if getattr(prop, "TWO_STAGE", False) else run_lines(model_bin, lines)
         built = build_drivers_parallel(specs)
         for (src, flavour, _ef), (path, blog) in zip(specs, built):
             oname = "correspondence %s[%s] (%d cases)" % (src, flavour, len(lines))
@@ -398,6 +400,10 @@ def run_check(prop, tier, seed):
                 continue
             impl = run_lines(path, lines)
             before = len(res.unknown)
+            if getattr(prop, "TWO_STAGE", False):
+                # the model judges the implementation's own observation of the lazy view:
+                # stage 2 feeds "<case> R:<impl output, blanks as '_'>" to the model runner
+                mo = run_lines(model_bin, [l + " R:" + I.replace(" ", "_") for l, I in zip(lines, impl)])
             judge(prop, dcases, impl, mo, res, known, flavour)
             res.obligations.append((oname, len(res.unknown) == before, "%d unlisted failures" % (len(res.unknown) - before)))
 
@@ -475,18 +481,25 @@ def replay(prop, path):
         print(json.dumps(r, indent=1)); return 1
     line = r["case"]
     model_bin = build_model(prop)
-    mo = run_lines(model_bin, [line], shards=1)[0].split("\t")
+    two = getattr(prop, "TWO_STAGE", False)
+    equal = getattr(prop, "equal", default_equal)
     print("case     :", line)
-    print("model    :", mo[0]); print("spec     :", mo[1]); print("in-domain:", mo[2])
+    mo = None
+    if not two:
+        mo = run_lines(model_bin, [line], shards=1)[0].split("\t")
+        print("model    :", mo[0]); print("spec     :", mo[1]); print("in-domain:", mo[2])
     rc = 0
     for dkey, specs in prop.drivers(r.get("tier", "quick")).items():
         for (src, flavour, ef) in specs:
             path_, blog = build_driver(src, flavour, ef)
             if path_ is None: print("impl[%s,%s]: does not compile" % (src, flavour)); rc = 1; continue
             I = run_lines(path_, [line], shards=1)[0]
-            if I == "unsupported": continue
-            print("impl[%s,%s]: %s" % (src, flavour, I))
-            if not getattr(prop, "equal", default_equal)(I, mo[1]) and mo[1] != "unspecified": rc = 1
+            if I in ("unsupported", "skip"): continue
+            print("impl[%s,%s %s]: %s" % (src, flavour, " ".join(ef), I))
+            if two:
+                mo = run_lines(model_bin, [line + " R:" + I.replace(" ", "_")], shards=1)[0].split("\t")
+                print("  model  :", mo[0]); print("  spec   :", mo[1]); print("  in-domain:", mo[2])
+            if mo[1] != "unspecified" and not equal(I, mo[1]): rc = 1
     print("property fails on this input" if rc else "property holds on this input")
     return rc
 
